@@ -6,6 +6,7 @@ import os
 
 import vlib
 from checks.common import Check
+from checks.dbcommon import cfg_with, is_known, tla_bool
 
 PROP = "C19"
 UNIVERSES = ["hostile", "ancillary", "failures", "pre"]
@@ -32,6 +33,8 @@ def _kept_cov(recs):
         "with_ancillary": sum(1 for e in rs if e["includeAnc"]),
         "ancillary_manifest_classes": dict(collections.Counter(e["ancManifest"] for e in rs if e["includeAnc"])),
         "manifest_variants": dict(collections.Counter(e["manifest"] for e in rs if e["includeAnc"])),
+        "entry_at_listed_path": {k: dict(collections.Counter(e["res"] for e in rs if e["includeAnc"] and e["ancAt"] == k))
+                                 for k in ("file", "dir", "link_in_same", "link_in_other", "link_out_same")},
         "kept_files": len(ks),
         "kept_allowed": dict(collections.Counter(f"{e['origin']}:{e['kind']}" for e in ks if _allowed(e))),
         "kept_not_allowed": dict(collections.Counter(f"{e['origin']}:{e['kind']}" for e in ks if not _allowed(e))),
@@ -56,20 +59,29 @@ def run(tier, seed):
     c.cov["trusted_base"] = ["TLC", "harness listing / tagging / SHA-256 of the sandbox", "tar, flate2, zstd (archive "
                              "construction and re-reading of the served ancillary archive)", "serde_json"]
     q = tier == "quick"
+    # the model follows the status of the listed finding (checks/dbcommon.py)
+    k_link = is_known(PROP, "C19-ancillary-symlink-at-listed-path")
+    now = {"ListedMustBeRegular": tla_bool(not k_link), "ExcuseAncLink": tla_bool(k_link)}
+    c.cov["model_constants"] = now
     for u in UNIVERSES:
-        c.mc("db", "MC_DbRestore", f"MC_DbRestore_{'q' if q else 't'}_{u}.cfg", name=u, workers=4, timeout=1800,
+        c.mc("db", "MC_DbRestore", cfg_with(c, f"MC_DbRestore_{'q' if q else 't'}_{u}.cfg", now), name=u, workers=4,
+             timeout=1800,
              vacuity=["Start", "UnpackImmutable", "Cleanup"] + (["Ancillary"] if u == "ancillary" else []))
         # idealised fixes (staged unpacking of immutable archives, injective manifest hash): no excuse needed
         c.mc("db", "MC_DbRestore", f"MC_DbRestore_ideal_{u}.cfg", name="idealised-fix-" + u, workers=4, timeout=1800,
              coverage=False)
     _expect_violation(c, "MC_DbRestore_unexcused_hostile.cfg", "known-finding-in-model-immutable-archive",
                       "immutable archives are unpacked straight into the target (C19-immutable-archive-*)")
-    _expect_violation(c, "MC_DbRestore_unexcused_merged.cfg", "known-finding-in-model-manifest-hash",
+    if k_link:
+        _expect_violation(c, "MC_DbRestore_unexcused_anclink.cfg", "known-finding-in-model-listed-symlink",
+                          "a symbolic link at a listed path verifies through the link and is moved "
+                          "(C19-ancillary-symlink-at-listed-path)")
+    _expect_violation(c, cfg_with(c, "MC_DbRestore_unexcused_merged.cfg", now), "known-finding-in-model-manifest-hash",
                       "re-split manifest keeps the genuine signature (C19-manifest-hash-not-injective)")
     cases = []
     for u in UNIVERSES:
-        g = c.mc("db", "MC_DbRestore", f"MC_DbRestore_{'gen' if q else 'gen3'}_{u}.cfg", name="GEN-" + u, workers=2,
-                 timeout=1800, coverage=False)
+        g = c.mc("db", "MC_DbRestore", cfg_with(c, f"MC_DbRestore_{'gen' if q else 'gen3'}_{u}.cfg", now),
+                 name="GEN-" + u, workers=2, timeout=1800, coverage=False)
         cs = vlib.printed_json(g, "CASE")
         if len(cs) < 100:
             raise vlib.ToolError(f"GEN {u} produced too few cases")
@@ -93,7 +105,8 @@ def run(tier, seed):
     c.cov["stages"]["RUN:cases"]["coverage"] = cov
     if cov["results"].get("ok", 0) < 200 or cov["kept_allowed"].get("anc:ledger", 0) < 50 \
             or cov["kept_allowed"].get("imm_archive:imm_in_range", 0) < 1000 \
-            or len(cov["manifest_variants"]) < 11 or cov["results"].get("err", 0) < 100:
+            or len(cov["manifest_variants"]) < 11 or cov["results"].get("err", 0) < 100 \
+            or min(sum(v.values()) for v in cov["entry_at_listed_path"].values()) < 10:
         c.defer(f"vacuity: {cov}")
     c.sample(rs[0])
     c.sample([e for e in recs if e["ev"] == "Kept" and not _allowed(e)][:2])
